@@ -928,6 +928,13 @@ func (fg *FnGen) loopEnv(fr *Frame, li *loopInfo, from *ssa.BasicBlock, st *Stat
 				if r, ok := nx.Iter.(*ssa.Range); ok && nx.IsString {
 					env.vars["$pos"] = CVal{T: fg.lookup(st, rangeVarName(r), SInt), Ty: types.Typ[types.Int]}
 				}
+				// map range iterators inside this loop: $seen[k] — key k has been yielded by this iteration
+				if r, ok := nx.Iter.(*ssa.Range); ok && !nx.IsString {
+					if mt, ok := r.X.Type().Underlying().(*types.Map); ok {
+						srt := ArraySort(fg.g.ti.sortOf(mt.Key()), SBool)
+						env.vars["$seen"] = CVal{T: fg.lookup(st, rangeVarName(r), srt)}
+					}
+				}
 			}
 		}
 	}
